@@ -62,6 +62,18 @@ def sortSeg (before : α → α → Bool) : Nat → Array α → Nat → Nat →
 def arraySort (lt gt : α → α → Bool) (ascend : Bool) (arr : Array α) : Option (Array α) :=
   sortSeg (if ascend then lt else gt) arr.size arr 0 arr.size
 
+/-- `HashTable::Sort` / `Value::Sort` on an object, as far as ordering goes: the slots
+    `(key, value, live)` are sorted by key (`HAItem_T::operator<` compares `Key`); a removed slot has
+    the empty key and `live = false`. -/
+abbrev Slot3 := List Nat × Nat × Bool
+
+/-- The association a hash array denotes: its live slots. -/
+def liveAssoc (slots : List Slot3) : List (List Nat × Nat) :=
+  (slots.filter (fun s => s.2.2)).map (fun s => (s.1, s.2.1))
+
+/-- Lookup by key in the denoted association. -/
+def lookupLive (k : List Nat) (slots : List Slot3) : Option Nat := (liveAssoc slots).lookup k
+
 /-- A sequence is ordered for `before` when no later element goes before an earlier one. -/
 def orderedBy (before : α → α → Bool) : List α → Bool
   | [] => true
